@@ -477,7 +477,8 @@ Proof.
 Qed.
 Lemma wp_tau_prop : forall P (Q : unit -> lst -> Prop) l, stable P -> P l -> (forall l', P l' -> Q tt l') -> wp tau_prop Q EA l.
 Proof.
-  intros P Q l [Hset [Hlog [HLC _]]] HP HQ. unfold tau_prop. apply wp_setslot, HQ, Hset; [reflexivity | discriminate | exact HP].
+  intros P Q l HS HP HQ. unfold tau_prop. apply wp_bind. apply (wp_t_prop P); [exact HS | exact HP | ].
+  intros l1 H1. cbv beta. destruct HS as [Hset _]. apply wp_setslot, HQ, Hset; [reflexivity | discriminate | exact H1].
 Qed.
 Lemma LC_Trio : forall l, LC l -> Trio (sl l).
 Proof. intros l [g [e [[_ [_ [H _]]] _]]]; exact H. Qed.
@@ -1314,7 +1315,7 @@ Lemma ni_omega_equal : forall g, ni (omega_equal g). Proof. intros; unfold omega
 Lemma ni_guard : forall mc g, ni (guard mc g).
 Proof. intros; unfold guard; pose proof ni_omega_equal; ni_auto. Qed.
 Lemma ni_t_prop : ni t_prop. Proof. unfold t_prop; ni_auto. Qed.
-Lemma ni_tau_prop : ni tau_prop. Proof. unfold tau_prop; ni_auto. Qed.
+Lemma ni_tau_prop : ni tau_prop. Proof. unfold tau_prop; pose proof ni_t_prop; ni_auto. Qed.
 Lemma ni_diagonalize : ni diagonalize. Proof. unfold diagonalize; ni_auto. Qed.
 Lemma ni_lazy_prop : forall s, ni (lazy_prop s). Proof. intros; unfold lazy_prop; pose proof ni_diagonalize; ni_auto. Qed.
 Lemma ni_tpl_prop : ni tpl_prop. Proof. unfold tpl_prop; pose proof ni_lazy_prop; ni_auto. Qed.
